@@ -30,7 +30,7 @@ class Q:
     """one solver query"""
     def __init__(self, name, unit, harness, entry, defs=None, unwind=None, unwindset=(), paths=False,
                  checks='std', extra=(), expect='pass', match=None, kind='main', timeout=600, mem_gb=6,
-                 optional=False, bounds=None, known=None, replay=True, solver='cadical', what=None, group=None, inline_witness=False, witness='all', unwind_fn=None, ignore=None, recursion=None):
+                 optional=False, bounds=None, known=None, replay=True, solver='cadical', what=None, group=None, inline_witness=False, witness='all', unwind_fn=None, ignore=None, recursion=None, unwind_kind=None):
         self.name = name; self.units = [unit] if isinstance(unit, str) else list(unit)
         self.harness = harness; self.entry = entry; self.defs = dict(defs or {})
         self.unwind = unwind; self.unwindset = list(unwindset); self.paths = paths; self.checks = checks
@@ -39,7 +39,7 @@ class Q:
         self.bounds = bounds or {}; self.known = known; self.replay = replay; self.solver = solver
         self.what = what; self.group = group or name; self.inline_witness = inline_witness
         if inline_witness: self.defs['VP_WITNESS_ON'] = 1
-        self.witness = witness; self.unwind_fn = unwind_fn or []; self.ignore = ignore; self.recursion = recursion or []
+        self.witness = witness; self.unwind_fn = unwind_fn or []; self.ignore = ignore; self.recursion = recursion or []; self.unwind_kind = unwind_kind or []
         self.res = None
 
 class Unit:
@@ -212,6 +212,14 @@ class Runner:
     def _run_query(self, q):
         if not getattr(q, '_lb_done', False):
             if q.unwind_fn: q.unwindset = list(q.unwindset) + self.loop_bounds(q)
+            if q.unwind_kind:                # per-loop bounds by (function regex, loop-kind regex): kinds come from ir2c's loop classification
+                for u in q.units:
+                    meta = json.load(open(os.path.join(self.work, u + '.loops.json')))
+                    for fn, loops in meta.items():
+                        for i, lp in enumerate(loops):
+                            for (frx, krx, k) in q.unwind_kind:
+                                if re.search(frx, fn) and re.search(krx, lp['kind']):
+                                    q.unwindset.append('%s.%d:%d' % (fn, i, k)); break
             for (rx, k) in q.recursion:      # recursion depth per function: --unwindset <function>:k (checked by unwinding assertions)
                 for u in q.units:
                     for fn in self.functions.get(u, []):
